@@ -44,7 +44,8 @@ def plan(tier):
     return {"shards": 16, "timeout": 900 if tier == "quick" else 4 * 3600,
             "required_monitors": ["inplace-model", "array-identity", "rhs-unchanged", "copy-independent",
                                   "container-copy-shallow", "deepcopy-independent", "view-shares-memory",
-                                  "aliases-observe-update", "inplace-must-raise"]}
+                                  "aliases-observe-update", "inplace-must-raise"],
+            "required_tags": ["ramses-dataset-copy"]}
 
 
 def cases(ctx):
@@ -52,6 +53,8 @@ def cases(ctx):
     out = [{"id": f"fix{i}", "i": i, "fixed": True} for i in range(200)]
     out += [{"id": f"h{i}", "i": i} for i in range(n)]
     out.append({"id": "contracts-repo-tests", "kind": "contracts", "i": 0})
+    # the dataset class users actually hold (RamsesDataset, with its own copy()): loaded from a synthetic output
+    out += [{"id": f"rds{i}", "kind": "ramses", "i": i} for i in range(6 if ctx.tier == "quick" else 120)]
     return out
 
 
@@ -124,7 +127,91 @@ def _check_all(res, label, ents, groups, views, steps):
     return True
 
 
+def _ramses(case, ctx, res):
+    """copy() / copy.copy / deepcopy of a loaded RamsesDataset: copy() shares the member Arrays and Vectors (an update in
+    place through one is seen through the other), deepcopy shares nothing, neither changes the original."""
+    import copy
+    import shutil
+    from .. import ramses_synth as rs
+    from ..io_monitors import quiet
+    osy = ctx.osyris
+    rng = ctx.rng("rds", case["i"])
+    spec = rs.random_spec(rng, ncpu=int(rng.choice([1, 2, 3])), max_octs=30)
+    if rng.random() < 0.7:
+        spec["part"] = rs.make_part(rng, spec)
+    model = rs.build(spec)
+    path = ctx.scratch("c17-")
+    res.sample = {"ndim": spec["ndim"], "ncpu": spec["ncpu"], "part": bool(spec.get("part"))}
+    res.digest_src = {"rds": case["i"], "ndim": spec["ndim"]}
+    try:
+        rs.write(model, path)
+        with quiet():
+            o = attempt(lambda: osy.RamsesDataset(spec["nout"], path=path).load())
+        if not o.ok:
+            res.violate("load-raised", f"RamsesDataset.load {o.describe()}", tb=o.tb)
+            return
+        ds = o.value
+        before = fp({g: ds[g] for g in ds.keys()})
+        for how, fn in (("copy()", lambda d: d.copy()), ("copy.copy", copy.copy), ("deepcopy", copy.deepcopy)):
+            with quiet():
+                o = attempt(fn, ds)
+            if not o.ok:
+                res.violate("copy-raised", f"{how} of a loaded RamsesDataset {o.describe()}", tb=o.tb)
+                return
+            c = o.value
+            if c is ds or list(c.keys()) != list(ds.keys()):
+                res.violate("copy-content", f"{how}: is the original / groups {list(c.keys())} != {list(ds.keys())}")
+                return
+            for g in ds.keys():
+                if list(c[g].keys()) != list(ds[g].keys()):
+                    res.violate("copy-content", f"{how}: members of group {g!r} differ: {list(c[g].keys())} != {list(ds[g].keys())}")
+                    return
+                for k in ds[g].keys():
+                    a, b = ds[g][k], c[g][k]
+                    ca, cb = _comps(a), _comps(b)
+                    shares = any(np.shares_memory(x._array, y._array) for x, y in zip(ca, cb) if x._array.size)
+                    if how == "deepcopy":
+                        res.count("deepcopy-independent")
+                        if b is a or shares:
+                            res.violate("deepcopy-not-independent", f"deepcopy(RamsesDataset): member {g}/{k} shares data with the original")
+                            return
+                    else:
+                        res.count("container-copy-shallow")
+                        if any(x._array.size and not np.shares_memory(x._array, y._array) for x, y in zip(ca, cb)):
+                            res.violate("container-copy-not-shallow", f"{how} of a RamsesDataset: member {g}/{k} does not share its "
+                                        f"data with the original (copy() of a container is shallow)")
+                            return
+            # an update in place through the copy: seen through the original for copy(), not for deepcopy
+            g = "mesh"
+            k = "density" if "density" in ds[g] else list(ds[g].keys())[0]
+            tgt = _comps(c[g][k])[0]
+            if tgt._array.size and tgt._array.dtype.kind == "f":
+                old = np.array(_comps(ds[g][k])[0]._array)
+                tgt *= 2.0
+                now = np.array(_comps(ds[g][k])[0]._array)
+                res.count("aliases-observe-update")
+                if how == "deepcopy":
+                    if not np.array_equal(now, old):
+                        res.violate("deepcopy-not-independent", f"deepcopy(RamsesDataset): updating {g}/{k} of the copy changed the original")
+                        return
+                else:
+                    if not np.array_equal(now, old * 2.0):
+                        res.violate("alias-not-updated", f"{how} of a RamsesDataset: updating {g}/{k} in place through the copy is not "
+                                    f"seen through the original")
+                        return
+                    tgt /= 2.0       # exact (power of two)
+            if fp({g2: ds[g2] for g2 in ds.keys()}) != before:
+                res.violate("copy-changed-original", f"{how}: the original dataset changed")
+                return
+        res.nontrivial = True
+        res.tag("ramses-dataset-copy")
+    finally:
+        shutil.rmtree(path, ignore_errors=True)
+
+
 def run_case(case, ctx, res):
+    if case.get("kind") == "ramses":
+        return _ramses(case, ctx, res)
     if case.get("kind") == "contracts":
         from .. import contracts
         return contracts.judge_repo_tests(res, ctx, ["test_array.py", "test_vector.py", "test_datagroup.py", "test_dataset.py"], ("Array.__i", "Array.copy"))
